@@ -217,6 +217,19 @@ def run(ctx, ck) -> None:
             ck.obs.append(o)
     ck.floor('O6', sum(1 for o in ck.obs if o.rule.endswith('O6')), 15, 'structure obligations on reduced operators')
 
+    # ------------------------------------------------------------------ O7 a product or a sum is only built from operands whose structures agree
+    # (an operator built from incompatible parts declares the output structure of its first factor and returns something
+    # else: the structure guards of the arithmetic dunders, shared with C02.S1)
+    from . import c02
+
+    sub2 = type(ck)(ck.pid)
+    c02.run(ctx, sub2)
+    for o in sub2.obs:
+        if o.rule.endswith('S1'):
+            o.rule = f'{ck.pid}.O7'
+            ck.obs.append(o)
+    ck.floor('O7', sum(1 for o in ck.obs if o.rule.endswith('O7')), 14, 'structure guards of the arithmetic dunders')
+
     # ------------------------------------------------------------------ O5 sizes and dtypes
     for name, acc, kind in (('in_size', 'IN', 'size'), ('out_size', 'OUT', 'size'), ('in_promoted_dtype', 'IN', 'dtype'), ('out_promoted_dtype', 'OUT', 'dtype')):
         r = table.resolve(base, name)
